@@ -287,15 +287,70 @@ func c18RecordCodec(cidLen int) *v.Codec {
 	}
 }
 
+// c18BigRecord is a DTLS 1.2 application-data record with n content bytes, as RecordLayer.Marshal
+// encodes it.
+func c18BigRecord(n int) *RecordLayer {
+	return &RecordLayer{
+		Header:  Header{Version: protocol.Version1_2, Epoch: 1, SequenceNumber: 5},
+		Content: &protocol.ApplicationData{Data: bytes.Repeat([]byte{0x5a}, n)},
+	}
+}
+
+// c18RecordEdges: records whose content is as long as / longer than the 16-bit length field can
+// say. RecordLayer.Marshal must refuse the latter (or the record would declare a wrapped length).
+func c18RecordEdges() []v.Edge {
+	mk := func(name string, inRange bool, n int) v.Edge {
+		return v.Edge{Name: name, InRange: inRange, Make: func() (v.Dump, []byte, error) {
+			rl := c18BigRecord(n)
+			out, err := rl.Marshal() // fills in ContentType and ContentLen
+			d := v.Dump{}
+			rl.Header.ContentType = protocol.ContentTypeApplicationData
+			rl.Header.ContentLen = uint16(n) //nolint:gosec // n > 65535: no value of the field is right
+			c18DumpHeader(&d, &rl.Header)
+			c18DumpContent(&d, rl.Content)
+
+			return d, out, err
+		}}
+	}
+
+	return []v.Edge{
+		mk("application-data-65535", true, 65535),
+		mk("application-data-65536", false, 65536),
+		mk("application-data-65546", false, 65546),
+	}
+}
+
+// c18UnpackEdges: the datagram made of ONE record produced by RecordLayer.Marshal must be split
+// into exactly that record.
+func c18UnpackEdges() []v.Edge {
+	mk := func(name string, inRange bool, n int) v.Edge {
+		return v.Edge{Name: name, InRange: inRange, Make: func() (v.Dump, []byte, error) {
+			out, err := c18BigRecord(n).Marshal()
+			d := v.Dump{}
+			d.N(1)
+			d.N(uint64(FixedHeaderSize + n))
+
+			return d, out, err
+		}}
+	}
+
+	return []v.Edge{
+		mk("marshalled-record-65535", true, 65535),
+		mk("marshalled-record-65546", false, 65546),
+	}
+}
+
 // TestVerifC18Record: legacy/CID record header (1), inner plaintext (8), datagram unpackers (9),
 // RecordLayer (10), DTLS 1.3 unified header (20), ciphertext (21) and plaintext (22) records,
 // UnpackDatagram13 (23).
 func TestVerifC18Record(t *testing.T) {
+	unpack0, aware0, record0 := c18UnpackCodec(false, 0), c18UnpackCodec(true, 0), c18RecordCodec(0)
+	unpack0.Edges, aware0.Edges, record0.Edges = c18UnpackEdges(), c18UnpackEdges(), c18RecordEdges()
 	v.Run(t, []*v.Codec{
 		c18HeaderCodec(0), c18HeaderCodec(4), c18HeaderCodec(8),
 		c18InnerCodec(),
-		c18UnpackCodec(false, 0), c18UnpackCodec(true, 0), c18UnpackCodec(true, 4), c18UnpackCodec(true, 8),
-		c18RecordCodec(0), c18RecordCodec(4),
+		unpack0, aware0, c18UnpackCodec(true, 4), c18UnpackCodec(true, 8),
+		record0, c18RecordCodec(4),
 		c18UnifiedCodec(0), c18UnifiedCodec(3),
 		c18Ciphertext13Codec(0), c18Ciphertext13Codec(3),
 		c18Plaintext13Codec(),
